@@ -185,3 +185,13 @@ CONFIG.assumptions = [
     "tags above 0x1fff are outside the property's domain (KSI_TLV_new does not range-check the tag)",
     "heap behaviour of the C code is observed under ASan, not proved",
 ]
+CONFIG.design_ref = "DESIGN.md section 4, C09"
+CONFIG.technique = "Lean 4 theorems (round-trip, soundness, refusal) over a TLV codec model + differential correspondence"
+CONFIG.level_text = ("Kernel-checked theorems for all trees, byte strings and buffer sizes: any successful "
+                     "serialization is exactly the format encoding and fits; oversize content and small buffers "
+                     "are refused; parse(encode t) returns tag, flags and payload at every level; a successful parse "
+                     "tiles its input exactly. The model is tied to tlv.c/fast_tlv.c/tlv_element.c by a differential "
+                     "run (~4*10^4 cases quick) and the format oracle is evaluated on the implementation's own output.")
+CONFIG.level_note = ("Trusted: Lean kernel + propext/Classical.choice/Quot.sound; the hand-written model and its "
+                     "differential tie (generator quality bounds what the tie sees); ASan/UBSan observe, not prove, "
+                     "memory safety. Element deep-parse (convertToNested) is covered by correspondence only.")
